@@ -349,7 +349,8 @@ class Summarizer:
                     if is_node(i) and i["k"] == "Lambda" and i.get("fid"):
                         lambdas[v["id"]] = i["fid"]
         for n, st in col.at:
-            g = tuple(sorted((f[1], f[2], _local_guard(f, env)) for f in (st or ()) if f[0] == "G"))
+            lkeys = col.loop_keys_at.get(id(n), ())
+            g = tuple(sorted((f[1], f[2], _local_guard(f, env)) for f in (st or ()) if f[0] == "G" and f[1] not in lkeys))
             ms = st is not None and ("D", "mode-split") in st
             lp = col.loops_at.get(id(n), ())
             site = ((fn["id"], n.get("loc", "")),)
@@ -372,6 +373,8 @@ class Summarizer:
                     and args[0].get("id") in lambdas:
                 # call of a helper lambda stored in a local
                 targets = [lambdas[args[0]["id"]]]
+                if n.get("fid") in self.F.fns and self.F.fns[n["fid"]].get("lambda_parent"):
+                    targets = [n["fid"]]  # the instantiated call operator of a generic lambda
                 recv = None
                 args = args[1:]
             elif n["k"] == "OpCall" and n.get("memberop"):
